@@ -64,7 +64,7 @@ def to_fracs(p, dmax, tol):
     return num, den, near
 
 
-def gof_fallback(Y, kind, seed, scale_pow=0, M=6000):
+def gof_fallback(Y, kind, seed, scale_pow=0, M=6000, int_seed=False):
     """Protocol-independent fallback for executions whose generator calls cannot be bound to the chain of conditionals
     (a different but equally valid way of drawing): empirical frequencies of M draws against the exact distribution,
     with a bound (6.5 standard deviations per cell, all cells) that a correct sampler exceeds with probability < 1e-8;
@@ -74,7 +74,8 @@ def gof_fallback(Y, kind, seed, scale_pow=0, M=6000):
     P = W / W.sum()
     Yrun = [G * 2.0 ** scale_pow for G in Y] if scale_pow else Y
     fn = teneva.sample if kind == 'lin' else teneva.sample_square
-    res = np.asarray(fn(Yrun, M, seed=np.random.default_rng(seed)) if kind == 'lin' else fn(Yrun, M, unique=False, seed=np.random.default_rng(seed)))
+    sd_ = int(seed) if int_seed else np.random.default_rng(seed)
+    res = np.asarray(fn(Yrun, M, seed=sd_) if kind == 'lin' else fn(Yrun, M, unique=False, seed=sd_))
     if not (res.ndim == 2 and res.shape == (M, len(Y)) and res.dtype.kind in 'iu' and (res >= 0).all() and (res < np.array(Fd.shape)).all()):
         return 'samples have the wrong shape / type / range'
     cnt = np.zeros(Fd.shape)
@@ -175,6 +176,21 @@ def run(ctx):
                               'generator calls do not follow the chain protocol and the drawn distribution is wrong: %s (n=%s rank %d)' % (msg, n, r), case={'cores': cores_json(Y), 'kind': kind})
         trs.append(tr)
         metas.append(dict(kind=kind, n=n, r=r, m=m, unique=unique))
+    # every way of naming the random stream ("for all seeds"): integer seeds, where the library builds the generator(s)
+    # itself and the audit generator sees nothing - the joint distribution of the drawn rows is tested directly
+    for t in range(6 if quick else 30):
+        d_ = 2 + t % 2
+        n_ = [int(x) for x in rng.integers(2, 4, size=d_)]
+        r_ = [1] + [int(x) for x in rng.integers(1, 3, size=d_ - 1)] + [1]
+        Yg = [np.ones((1, 2, 1)), np.ones((1, 2, 1))] if t == 0 else [rng.integers(0, 3, size=(r_[k], n_[k], r_[k + 1])).astype(float) for k in range(d_)]
+        kind = 'lin' if t % 3 != 2 else 'sq'
+        if F.dense(Yg).sum() <= 0 or not np.any(F.dense(Yg)):
+            continue
+        msg = gof_fallback(Yg, kind, t, int_seed=True)
+        ctx.case(key=('gof-int-seed', tuple(n_), tuple(r_), kind, t), nontrivial=True)
+        if msg:
+            ctx.violation('sample_square:distribution' if kind == 'sq' else 'sample:distribution',
+                          'integer seed %d: the drawn distribution is wrong: %s (shape %s)' % (t, msg, [G.shape[1] for G in Yg]), case={'cores': cores_json(Yg), 'kind': kind})
     # restart path of the unique squared sampler: peaked tensors, m close to the number of non-negligible entries
     for t in range(6 if quick else 40):
         n = [3, 4, 3]
